@@ -162,7 +162,9 @@ def selection_pairing(ctx, obs, q: str, rule='AXIS-pair', matrices_vars: Sequenc
             continue
         for ax, it in enumerate(_index_items(n.slice)):
             if isinstance(it, ast.Name):
-                arr_uses.append((it.id, field, ax, n))
+                arr_uses.append((_base_selection(r, it), field, ax, n))
+            elif isinstance(it, ast.Subscript) and isinstance(it.value, ast.Name) and _is_reshape_index(it.slice):
+                arr_uses.append((_base_selection(r, it.value), field, ax, n))   # sel[:, None] / sel[None, :]
     desc_uses: List[Tuple[str, str, ast.AST]] = []
     for n in ast.walk(f.node):
         if isinstance(n, ast.Call) and _leaf(n.func) in DESC_EXTRACTORS and len(n.args) >= 2:
@@ -195,6 +197,43 @@ def selection_pairing(ctx, obs, q: str, rule='AXIS-pair', matrices_vars: Sequenc
                   f'`{idx}` selects axis {ax} of {field} (labelled by {want}) but is used to extract '
                   f'{sorted(set(wrong))}: values and labels of different axes are paired', '', where(prog, f, node))
     return n_ob
+
+
+def _is_reshape_index(sl) -> bool:
+    """[:, None] / [None, :] / [:, np.newaxis]: same values, another shape"""
+    items = list(sl.elts) if isinstance(sl, ast.Tuple) else [sl]
+    def ok(x):
+        return (isinstance(x, ast.Slice) and x.lower is None and x.upper is None) or \
+            (isinstance(x, ast.Constant) and x.value is None) or (isinstance(x, ast.Attribute) and x.attr == 'newaxis')
+    return all(ok(x) for x in items) and any(isinstance(x, ast.Slice) for x in items)
+
+
+def _base_selection(r, name: ast.Name, depth=0) -> str:
+    """the selection variable an index variable is just a reshaped / open-mesh view of:
+         rows = sel[:, None] ; cols = sel[None, :] ; rows, cols = np.ix_(sel, sel) ; idx = np.asarray(sel)"""
+    if depth > 4:
+        return name.id
+    ids = r.load_defs.get(id(name), ())
+    if len(ids) != 1:
+        return name.id
+    d = r.defs[next(iter(ids))]
+    if d.kind != 'assign' or not isinstance(d.node, ast.Assign):
+        return name.id
+    v = d.node.value
+    tgt = d.node.targets[0]
+    if isinstance(tgt, (ast.Tuple, ast.List)):
+        if isinstance(v, ast.Call) and _leaf(v.func) == 'ix_' and v.args and all(isinstance(a, ast.Name) for a in v.args):
+            k = [i for i, t in enumerate(tgt.elts) if isinstance(t, ast.Name) and t.id == name.id]
+            if k and k[0] < len(v.args):
+                return _base_selection(r, v.args[k[0]], depth + 1)
+        return name.id
+    if isinstance(v, ast.Subscript) and isinstance(v.value, ast.Name) and _is_reshape_index(v.slice):
+        return _base_selection(r, v.value, depth + 1)
+    if isinstance(v, ast.Call) and _leaf(v.func) in ('asarray', 'array', 'reshape', 'ravel') and v.args and isinstance(v.args[0], ast.Name):
+        return _base_selection(r, v.args[0], depth + 1)
+    if isinstance(v, ast.Call) and isinstance(v.func, ast.Attribute) and v.func.attr == 'reshape' and isinstance(v.func.value, ast.Name):
+        return _base_selection(r, v.func.value, depth + 1)
+    return name.id
 
 
 def _from_get_matrices(r, name: ast.Name, inl: Inliner) -> bool:
